@@ -43,7 +43,7 @@ def resolved_sites(fn):
             def branches(e, conds):
                 e = A.strip(e)
                 if e.get("k") == "If":
-                    c = A.unparse(A.strip(e["cond"])).replace(" ", "")
+                    c = A.ftxt(A.strip(e["cond"]))
                     branches(e["then"], conds + [c])
                     if e.get("else") is not None:
                         branches(e["else"], conds + ["!" + c])
@@ -147,7 +147,7 @@ def r1_variance(rule, root=None):
             rule.bad(name, "Interval::%s must be [self.lower.%s(rhs.lower), self.upper.%s(rhs.upper)]" % (name, m, m), A.where(IV, fn))
     # Neg, Mul<f32>
     fn = iv_fn("neg", trait="std::ops::Neg", root=root)
-    t = A.unparse(fn["body"]).replace(" ", "")
+    t = A.ftxt(fn["body"])
     if t == "{Interval::new(-self.upper,-self.lower)}":
         rule.ok("Interval Neg: [-upper, -lower]")
     else:
@@ -156,13 +156,44 @@ def r1_variance(rule, root=None):
     rs = resolved_sites(fn)
     by = {}
     for conds, lo, hi, node in rs:
-        by[tuple(conds)] = (A.unparse(lo).replace(" ", ""), A.unparse(hi).replace(" ", ""))
+        by[tuple(conds)] = (A.ftxt(lo), A.ftxt(hi))
     neg = [v for c, v in by.items() if "(rhs<0.0)" in c]
     pos = [v for c, v in by.items() if "!(rhs<0.0)" in c]
     if neg == [("(self.upper*rhs)", "(self.lower*rhs)")] and pos == [("(self.lower*rhs)", "(self.upper*rhs)")]:
         rule.ok("Interval * f32 swaps the bounds exactly for a negative factor", file=IV, line=fn["ln"])
     else:
         rule.bad("mul_f32", "Interval * f32 must be [upper*c, lower*c] for c < 0 and [lower*c, upper*c] otherwise; found %s" % by, A.where(fn))
+
+
+SCALAR_FAMILY = {"sin", "cos", "tan", "asin", "acos", "atan", "exp", "ln", "sqrt", "floor", "ceil", "round", "atan2", "rem_euclid"}
+
+
+def r1b_namesake_scalar(rule, root=None):
+    """inside Interval::NAME every transcendental / rounding function applied to a bound is NAME itself
+    (sin's bounds come from sin, never cos); helper arithmetic (min, max, abs, powi, ..) is unrestricted"""
+    d = A.load(IV, root)
+    for f in d["_fns"]:
+        ow = f.get("_owner") or {}
+        if f["_test"] or ow.get("self_ty") != "Interval" or ow.get("trait") or f["name"] not in SCALAR_FAMILY:
+            continue
+        used = {}
+        for c in A.find(f["body"], "MethodCall"):
+            if c["method"] in SCALAR_FAMILY:
+                r = A.strip(c["recv"])
+                # only calls on f32 bounds / locals, not on intervals
+                used.setdefault(c["method"], []).append(c)
+        own = f["name"]
+        allowed = {own}
+        if own == "rem_euclid":
+            allowed |= {"floor"}  # a.floor() == b.floor() wrap test
+        foreign = {m: cs for m, cs in used.items() if m not in allowed}
+        if foreign:
+            m, cs = sorted(foreign.items())[0]
+            rule.bad("%s|foreign|%s" % (own, m), "Interval::%s computes a bound with `.%s()`; its bounds must come from %s itself" % (own, m, own), A.where(IV, cs[0]))
+        elif own in used or own in ("sin", "cos"):
+            rule.ok("Interval::%s applies only %s to its bounds (%d call(s))" % (own, own, len(used.get(own, []))), file=IV, line=f["ln"])
+        else:
+            rule.bad("%s|none" % own, "Interval::%s never applies %s to a bound" % (own, own), A.where(IV, f))
 
 
 def r2_nanflow(rule, root=None, report_unanalysed=True):
@@ -194,6 +225,8 @@ def r2_nanflow(rule, root=None, report_unanalysed=True):
 def run(ctx):
     r = ctx.rule("R1", "monotone interval ops take each result bound from the bound their monotonicity dictates", 16)
     ctx.guarded(r, r1_variance)
+    r = ctx.rule("R1b", "transcendental / rounding interval ops take their bounds from their namesake scalar function", 14)
+    ctx.guarded(r, r1b_namesake_scalar)
     r = ctx.rule("R3", "the interval interpreter loop computes each opcode", 54)
     ctx.guarded(r, lambda rule: V.check_loop(rule, "interval"))
     r = ctx.rule("R3b", "x86_64 interval assembler: write discipline, hazards, call helpers, callbacks, choice protocol", 26 + 27 + 2 + 10 + 26)
